@@ -22,11 +22,11 @@ META = {
              "sample values; distinct = (alphabet, multiset, order, v)."),
     "assumptions": ["integer counting with numpy comparisons is the reference", "samples are finite (no NaN): the property's domain"],
     "deciding": ["stats.greater_equal_ecdf", "stats.less_equal_ecdf"],
-    "exhaustive_tiers": {"quick": {"multisets size<=7 over 6 letters": 1715, "value alphabets": 6, "orders": 3, "queries": 13},
-                         "thorough": {"multisets size<=7 over 6 letters": 1715, "value alphabets": 6, "orders": 3, "queries": 13}},
+    "exhaustive_tiers": {"quick": {"multisets size<=7 over 6 letters": 1715, "value alphabets": 6, "orders": 3, "queries": "13 (+3 integer-typed queries for the real alphabets)"},
+                         "thorough": {"multisets size<=7 over 6 letters": 1715, "value alphabets": 6, "orders": 3, "queries": "13 (+3 integer-typed queries for the real alphabets)"}},
 }
 
-META["added"] = 'Added: unsigned and narrow integer dtypes, a preallocated sample buffer queried, refilled in place and queried again, non-numeric results scored as violations (not monitor errors). int64 values beyond 2**53 with integer queries.'
+META["added"] = 'Added: unsigned and narrow integer dtypes, a preallocated sample buffer queried, refilled in place and queried again, non-numeric results scored as violations (not monitor errors). int64 values beyond 2**53 with integer queries. integer-typed queries on real-valued samples.'
 MANIFEST = {
     "technique": "runtime post-conditions on the real ecdf functions (all call sites) vs integer counting; exhaustive small multisets + random heavy-tie samples",
     "level_text": "All 1715 multisets of size<=7 over 6 letters x 4 value alphabets x 3 orders x 13 query positions are enumerated completely (exhaustive for that sub-space) through the real functions under an exact counting oracle, plus 10^3 (quick) / 10^5 (thorough) random large samples; sum and monotonicity identities checked per sample.",
@@ -212,6 +212,10 @@ def run(ctx):
                     queries[-2:] = [-2e9, 2e9]
                 if aname == "bigint":
                     queries = list(alpha) + BIG_GAPS + [alpha[0] - 1, alpha[-1] + 1]          # integer queries only
+                if aname in ("real", "neg", "mixed"):
+                    # integer-TYPED queries against real-valued samples (python int and numpy integer): sample values lie strictly between v-1 and v
+                    iq = {"real": [0, 1], "neg": [-5, -4, -2, -1, 0], "mixed": [-1, 0, 1]}[aname]
+                    queries = queries + iq[: 2 + ci % 2] + [numpy.int64(iq[-1 - ci % 2])]
                 orders = [vals, vals[::-1], [vals[i] for i in rng.permutation(size)]]
                 for oi, xv in enumerate(orders):
                     dts = DTYPES[aname]
